@@ -194,7 +194,114 @@ def exc_name(e):
 # ================================================================================================
 # Encoding for the Gallina model
 # ================================================================================================
-from engine import coq_str, coq_list, coq_bool, coq_z, coq_nat, coq_opt, coq_pyval  # noqa: E402
+import re as _re  # noqa: E402
+import engine as _E  # noqa: E402
+from engine import coq_list, coq_bool, coq_z, coq_nat, coq_opt  # noqa: E402
+
+
+class Interner:
+    """Case terms are dominated by repeated strings and repeated sub-terms (key jar, kwargs, configuration,
+    snapshots).  Elaborating string literals is what makes coqc slow, so every string and every shared
+    sub-term is emitted once per shard as a Definition and referenced by name."""
+
+    def __init__(self):
+        self.names = {}      # (type, text) -> name
+        self.defs = {}       # name -> (type, text)
+        self.order = []
+
+    def share(self, text, ty, prefix="g"):
+        key = (ty, text)
+        n = self.names.get(key)
+        if n is None:
+            n = "%s_%d" % (prefix, len(self.order))
+            self.names[key] = n
+            self.defs[n] = (ty, text)
+            self.order.append(n)
+        return n
+
+    def s(self, string):
+        return self.share(_E.coq_str(string), "pystr", "s")
+
+    _NAME = _re.compile(r"\b[sg]_\d+\b")
+
+    def prelude(self, texts):
+        need, stack = set(), []
+        for t in texts:
+            stack.extend(self._NAME.findall(t))
+        while stack:
+            n = stack.pop()
+            if n in need or n not in self.defs:
+                continue
+            need.add(n)
+            stack.extend(self._NAME.findall(self.defs[n][1]))
+        return "".join("Definition %s : %s := %s.\n" % (n, self.defs[n][0], self.defs[n][1])
+                       for n in self.order if n in need)
+
+
+I = Interner()
+
+
+def coq_str(s):
+    return I.s(s)
+
+
+def coq_pyval(v):
+    if v is None:
+        return "VNone"
+    if v is True or v is False:
+        return "(VBool %s)" % coq_bool(v)
+    if isinstance(v, int):
+        return "(VInt %s)" % coq_z(v)
+    if isinstance(v, str):
+        return "(VStr %s)" % coq_str(v)
+    if isinstance(v, (list, tuple)):
+        return "(VList %s)" % coq_list([coq_pyval(x) for x in v], "pyval")
+    if isinstance(v, dict):
+        return I.share("(VDict %s)" % coq_list(["(%s, %s)" % (coq_str(k), coq_pyval(x)) for k, x in v.items()],
+                                                "(pystr * pyval)"), "pyval")
+    raise ValueError("no pyval for %r" % (v,))
+
+
+def check_cases(ctx, imports, case_type, checker, cases, shard=400, label="cases", diag=None):
+    """Like engine.Ctx.coq_check_cases, but every shard starts with the shared definitions it needs."""
+    from concurrent.futures import ThreadPoolExecutor
+    jobs = []
+    for i in range(0, len(cases), shard):
+        part = cases[i:i + shard]
+        ctx.shard_seq += 1
+        name = "%s_%s_%03d" % (ctx.prop, label, ctx.shard_seq)
+        body = "%sDefinition cases : list (%s) := [\n%s\n].\nEval vm_compute in (bad_indices (%s) cases).\n" % (
+            I.prelude([t for t, _ in part]), case_type, ";\n".join(t for t, _ in part), checker)
+        jobs.append((name, body, part))
+
+    def run(job):
+        return job, ctx.coq_eval(job[0], imports, job[1])
+    with ThreadPoolExecutor(max_workers=min(_E.NCPU, max(1, len(jobs)))) as ex:
+        results = list(ex.map(run, jobs))
+    bad = []
+    for (name, body, part), (rc, out, vals) in results:
+        if rc != 0 or not vals:
+            ctx.broken.append("correspondence shard %s does not evaluate: %s" % (name, out.strip()[-600:]))
+            continue
+        try:
+            idx = _E.parse_nat_list(vals[-1])
+        except ValueError as e:
+            ctx.broken.append("correspondence shard %s: %s" % (name, e))
+            continue
+        ctx.traces += len(part)
+        dvals = {}
+        if idx and diag:
+            texts = [part[k][0] for k in idx[:5]]
+            dbody = I.prelude(texts) + "".join("Eval vm_compute in (%s (%s)).\n" % (diag, t) for t in texts)
+            drc, dout, dv = ctx.coq_eval(name + "_diag", imports, dbody)
+            dvals = dict(zip(idx[:5], dv))
+        for k in idx:
+            rec = part[k][1]
+            bad.append(rec)
+            ctx.mismatch("model and implementation disagree (%s, %s[%d])" % (label, name, k), rec,
+                         model=dvals.get(k, "(model answer not printed)"))
+    return bad
+
 
 EXC = {
     "TypeError": "TypeError", "KeyError": "KeyError", "ValueError": "ValueError", "AttributeError": "AttributeError",
@@ -214,7 +321,8 @@ def coq_exc(name):
 
 
 def coq_dict(d):
-    return coq_list(["(%s, %s)" % (coq_str(k), coq_pyval(v)) for k, v in d.items()], "(pystr * pyval)")
+    return I.share(coq_list(["(%s, %s)" % (coq_str(k), coq_pyval(v)) for k, v in d.items()], "(pystr * pyval)"),
+                   "list (pystr * pyval)")
 
 
 def coq_ostr(x):
@@ -246,16 +354,16 @@ def jar_of(keyjar):
 
 def coq_jar(j):
     kt = {"RSA": "KRsa", "EC": "KEc", "oct": "KOct"}
-    return coq_list(["(mkJE %s %s %s %s)" % (coq_str(o), kt[t], coq_str(kid), coq_nat(n)) for o, t, kid, n in j],
-                    "jar_entry")
+    return I.share(coq_list(["(mkJE %s %s %s %s)" % (coq_str(o), kt[t], coq_str(kid), coq_nat(n)) for o, t, kid, n in j],
+                            "jar_entry"), "list jar_entry")
 
 
 def coq_kwargs(kw, jar):
-    return "(mkKw %s %s %s %s %s %s %s %s %s %s)" % (
+    return I.share("(mkKw %s %s %s %s %s %s %s %s %s %s)" % (
         coq_ostr(kw.get("iss")), coq_ostr(kw.get("client_id")), coq_ostr(kw.get("sigalg")),
         coq_ostr(kw.get("allowed_sign_alg")), coq_bool(kw.get("allow_sign_alg_none", False)),
         coq_opt(kw.get("skew"), coq_z, "Z"), coq_opt(kw.get("nonce_storage_time"), coq_z, "Z"),
-        coq_bool(kw.get("allow_missing_kid", False)), coq_ostr(kw.get("nonce")), coq_jar(jar))
+        coq_bool(kw.get("allow_missing_kid", False)), coq_ostr(kw.get("nonce")), coq_jar(jar)), "kwargs")
 
 
 def signer_num(tok):
@@ -266,8 +374,8 @@ def signer_num(tok):
 
 
 def coq_token(tok):
-    return "(mkTok %s %s %s %s)" % (coq_str(tok["alg"]), coq_ostr(tok["kid"]),
-                                    coq_opt(signer_num(tok), coq_nat, "nat"), coq_dict(tok["claims"]))
+    return I.share("(mkTok %s %s %s %s)" % (coq_str(tok["alg"]), coq_ostr(tok["kid"]),
+                                            coq_opt(signer_num(tok), coq_nat, "nat"), coq_dict(tok["claims"])), "token")
 
 
 def coq_hash_table(values):
@@ -275,7 +383,7 @@ def coq_hash_table(values):
     for v in values:
         for bits in (256, 384, 512):
             rows.append("(%s, %s, %s)" % (coq_str(str(bits)), coq_str(v), coq_str(left_hash_ref(v, bits))))
-    return coq_list(rows, "(pystr * pystr * pystr)")
+    return I.share(coq_list(rows, "(pystr * pystr * pystr)"), "list (pystr * pystr * pystr)")
 
 
 def coq_res_dict(out):
@@ -562,7 +670,9 @@ def oracle_c08(case, expected_alg, sent_nonce):
     """Independent validator. Returns the list of clauses of C08 this token violates (empty = valid token).
     expected_alg: the signing algorithm the RP is configured to expect (None = no expectation configured)."""
     tok, ctx, cfg, now = case["tok"], case["ctx"], case["cfg"], case["now"]
-    c = tok["claims"]
+    # a claim without content ("", [], [""], [null, ...]) counts as absent: lenient on representation
+    c = {k: v for k, v in tok["claims"].items()
+         if not (v == "" or v == [] or v == [""] or (isinstance(v, list) and v and v[0] is None))}
     bad = []
     alg, signer = tok["alg"], tok["signer"]
     from_authz = case["path"] in ("msg_authz", "svc_authz")
@@ -640,10 +750,10 @@ def cfg_of_client(client, usage_sigalg_explicit=None):
 
 
 def coq_cfg(c):
-    return "(mkCfg %s %s %s %s %s %s %s %s %s)" % (
+    return I.share("(mkCfg %s %s %s %s %s %s %s %s %s)" % (
         coq_str(c["issuer"]), coq_ostr(c["pi_issuer"]), coq_str(c["client_id"]), coq_ostr(c["reg_sigalg"]),
         coq_ostr(c["usage_sigalg"]), coq_bool(c["allow_none"]), coq_z(c["skew"]), coq_bool(c["allow_missing_kid"]),
-        coq_jar(c["jar"]))
+        coq_jar(c["jar"])), "rp_cfg")
 
 
 class World:
@@ -685,7 +795,8 @@ class World:
         for iss, db, mp in snap:
             dbt = coq_list(["(%s, %s)" % (coq_str(k), coq_dict(r)) for k, r in db.items()], "(pystr * list (pystr * pyval))")
             mpt = coq_list(["(%s, %s)" % (coq_str(k), coq_str(v)) for k, v in mp.items()], "(pystr * pystr)")
-            rows.append("(%s, (%s, %s))" % (coq_str(iss), dbt, mpt))
+            rows.append("(%s, (%s, %s))" % (coq_str(iss), I.share(dbt, "list (pystr * list (pystr * pyval))"),
+                                            I.share(mpt, "list (pystr * pystr)")))
         return coq_list(rows, "(pystr * (list (pystr * list (pystr * pyval)) * list (pystr * pystr)))")
 
     def placeholder(self, tok):
@@ -700,7 +811,7 @@ class World:
         for k in ("code", "access_token"):
             if isinstance(params.get(k), str):
                 self.hashed.add(params[k])
-        return "(mkResp %s %s)" % (coq_dict(params), coq_opt(tok, coq_token, "token"))
+        return I.share("(mkResp %s %s)" % (coq_dict(params), coq_opt(tok, coq_token, "token")), "response")
 
     def _record(self, coq_op, kind, detail, out, before):
         after = self.snapshot()
